@@ -84,3 +84,60 @@ mtext('C14',
       'outside the crate\'s MIR); the trait solver\'s answers; the callee classification table in analysis/t2n/callees.py.',
       'static analysis: trait-solver obligations (Freeze/Send/Sync) + whole-crate MIR effect inventory + static/unsafe inventory',
       'DESIGN.md §2 Family C, §4 C14')
+
+from .rules import builder  # noqa: E402
+
+reg(Prop('C12', 'other',
+         [builder.rule_fail_atomic, builder.rule_frozen_first, builder.rule_write_guarded, builder.rule_field_coverage],
+         'Decides structural clauses of the digit builder on its MIR, for symbolic arguments (public API): B3 no write through '
+         'self can be followed by an Err exit in put/put_digit_at/push/fput/shift (failed operations change nothing; one named '
+         'exception, the implicit-one push of shift, with its premises checked); B4 every mutator tests self.frozen on an edge '
+         'dominating every write and returns Err(Frozen); B5 overwrites are dominated by the free-slot test of the same range / '
+         'position, zeros are counted only on an empty buffer for the digit "0", all-zero input is refused, who-writes '
+         'leading_zeroes/frozen; B6 reset covers all fields, len/is_empty/to_string read buffer and leading_zeroes; B1 every '
+         'panic-capable site of the DigitString methods is discharged without assuming anything about callers (difference-'
+         'constraint prover over dominating branch facts, or a named instance whose guards are checked to dominate). '
+         'Does NOT decide the arithmetic meaning of put/shift (value after each step, "no digit lost"): that is a functional-'
+         'correctness statement about byte arrays, outside static analysis.',
+         assumptions=['arguments are ASCII digits and positions < 2^31 (stated bound of the property)']))
+
+from .rules import panics, progress  # noqa: E402
+
+
+def _c03_sites(ctx, rep):
+    panics.rule_panic_sites(ctx, rep, 'C03')
+
+
+def _c12_sites(ctx, rep):
+    panics.rule_panic_sites(ctx, rep, 'C12')
+
+
+reg(Prop('C03', 'other', [_c03_sites, panics.rule_nonempty_format, panics.rule_digit_args, progress.rule_loops, progress.rule_recursion],
+         'Decides totality structurally: B1 the complete inventory of panic-capable sites in the library MIR (Assert terminators '
+         '+ calls to partial callees such as unwrap, index, copy_from_slice, drain) with each site discharged by D1 a dominating '
+         'guard (difference-constraint prover over branch facts), D3 constant arguments at every in-crate call site, D4 non-empty '
+         'dominance for the float parse in format_and_value, D5 constant constructor input, or D6 a named instance whose guards '
+         'are checked to dominate; B2 every natural loop consumes from an iterator on every cycle and the recursion inventory '
+         'equals the confirmed bounded set (apply/exec_group over strictly shorter pieces; WordSplitIterator::next depth <= 2). '
+         'Thresholds need no rule: f64 comparison is total. Out of scope: panics inside std/daachorse/phf on valid arguments, '
+         'allocation failure, stack exhaustion on adversarially long words.',
+         assumptions=['token iterators supplied by the caller are finite', 'callee partiality table analysis/t2n/callees.py is complete for the callees used']))
+PROPS['C12'].rules.append(_c12_sites)
+
+mtext('C03',
+      'Static totality argument over code sites, not inputs: every panic-capable site reachable in the library MIR is enumerated '
+      '(100 on this tree) and discharged by a dominance-based rule or a named, guard-checked instance; loops and recursion are '
+      'shown to make progress. This is close to the whole statement modulo the trusted base; it is `other` rather than `proof` '
+      'because 44 D6 instances rest on one-line hand arguments (their premises are machine-checked, the arithmetic is not).',
+      'Trusted: std/daachorse/phf do not panic on valid arguments; the partial-callee table; the D6 table tables/panic_sites.json '
+      '(each entry: guards checked mechanically, argument by hand); allocation failure and stack exhaustion out of scope.',
+      'static analysis: MIR panic-site inventory + dominator/edge-fact difference-constraint prover + call-site constant and non-empty dominance rules + loop/recursion progress',
+      'DESIGN.md §2 B1 B2, §4 C03')
+mtext('C12',
+      'Structural clauses of the builder decided on MIR for symbolic arguments: failure atomicity (no write before a possible Err), '
+      'frozen-first, guarded overwrites and zero counting, field coverage of reset/len/is_empty/to_string, and panic-freedom of every '
+      'public method. Each is a necessary condition of the property; the arithmetic meaning of place/shift is not decided.',
+      'Not decided: value semantics of put/shift ("multiplies the rightmost group by 10^p", "keeps every non-zero digit"). Assumes ASCII-digit '
+      'arguments and positions < 2^31. Known finding: is_range_free(start >= end) violates a documented precondition (debug assertion).',
+      'static analysis: MIR mutation/dominance analysis (write-before-Err reachability, guard dominance, who-writes) + panic-site prover',
+      'DESIGN.md §2 B1 B3 B4 B5 B6, §4 C12')
